@@ -40,7 +40,10 @@ def ensure_scratch():
 def build_demo(src, wt, exe):
     if src.endswith(".cpp"):
         head = open(src, errors="replace").read(3000)
-        extra = "-g -fsanitize=thread " if "-fsanitize=thread" in head.split("#include")[0] and "#error" in head else ""
+        pre = head.split("#include")[0]
+        gpp = [l for l in pre.split("\n") if "g++" in l]
+        # the demonstration names its own build command in the header comment: ThreadSanitizer when the FIRST command asks for it
+        extra = "-g -fsanitize=thread " if ("#error" in head and "-fsanitize=thread" in pre) or (gpp and "-fsanitize=thread" in gpp[0]) else ""
         cmd = (f"g++ -std=c++17 -O1 {extra}-I{wt}/include -I{wt}/src {src} {wt}/src/common/*.cpp {wt}/src/csv/*.cpp {wt}/src/msgpack/*.cpp "
                f"-lpugixml -lpthread -o {exe}")
         return sh(cmd, timeout=1800)
